@@ -49,6 +49,12 @@ E1 == Atoms \cup [op : {"not"}, a : Atoms] \cup [op : {"paren"}, a : Atoms]
 E2 == E1 \cup [op : {"and", "or"}, a : Atoms, b : Atoms] \cup [op : {"not", "paren"}, a : [op : {"and", "or"}, a : Atoms, b : Atoms]]
 Exprs == IF ExprDepth = 0 THEN Atoms ELSE IF ExprDepth = 1 THEN E1 ELSE E2
 
+\* the numeric value a macro name has inside #if: its body is rescanned, so a macro whose body is the
+\* other macro ("ref") has that macro's value; on a cycle the name is left alone (an identifier: 0)
+OtherName(n) == CHOOSE o \in Names : o # n
+NumOf(n, d) == IF d[n] = "ref" THEN (IF d[OtherName(n)] = "ref" THEN 0 ELSE Num(d[OtherName(n)])) ELSE Num(d[n])
+IsNumOf(n, d) == IF d[n] = "ref" THEN Cardinality(Names) = 2 /\ (d[OtherName(n)] = "ref" \/ IsNum(d[OtherName(n)])) ELSE IsNum(d[n])
+
 Cmp(x, rel, k) == CASE rel = "==" -> x = k [] rel = "!=" -> x # k
                     [] rel = "<" -> x < k   [] rel = ">" -> x > k
                     [] rel = "<=" -> x <= k [] rel = ">=" -> x >= k
@@ -57,8 +63,8 @@ RECURSIVE Eval(_, _)
 Eval(e, d) ==
   CASE e.op \in {"def", "defsp"} -> d[e.n] # Undef
     [] e.op = "lit"  -> e.k # 0
-    [] e.op = "bare" -> Num(d[e.n]) # 0
-    [] e.op = "cmp"  -> Cmp(Num(d[e.n]), e.rel, e.k)
+    [] e.op = "bare" -> NumOf(e.n, d) # 0
+    [] e.op = "cmp"  -> Cmp(NumOf(e.n, d), e.rel, e.k)
     [] e.op = "not"   -> ~Eval(e.a, d)
     [] e.op = "paren" -> Eval(e.a, d)
     [] e.op = "and"   -> Eval(e.a, d) /\ Eval(e.b, d)
@@ -68,9 +74,17 @@ Eval(e, d) ==
 RECURSIVE Evaluable(_, _)
 Evaluable(e, d) ==
   CASE e.op \in {"def", "defsp", "lit"} -> TRUE
-    [] e.op \in {"cmp", "bare"} -> AllowBare \/ IsNum(d[e.n])
+    [] e.op \in {"cmp", "bare"} -> AllowBare \/ IsNumOf(e.n, d)
     [] e.op \in {"not", "paren"} -> Evaluable(e.a, d)
     [] e.op \in {"and", "or"} -> Evaluable(e.a, d) /\ Evaluable(e.b, d)
+
+\* does the condition consult a macro whose body is another macro?
+RECURSIVE UsesRef(_, _)
+UsesRef(e, d) ==
+  CASE e.op \in {"def", "defsp", "lit"} -> FALSE
+    [] e.op \in {"cmp", "bare"} -> d[e.n] = "ref"
+    [] e.op \in {"not", "paren"} -> UsesRef(e.a, d)
+    [] e.op \in {"and", "or"} -> UsesRef(e.a, d) \/ UsesRef(e.b, d)
 
 VARIABLES defs,     \* reference macro table: Names -> Vals \cup {Undef}
           frames,   \* reference conditional stack
@@ -104,7 +118,7 @@ Open(cond, rec) ==
   /\ Emit(rec)
   /\ UNCHANGED <<defs, idefs, group, skips, effects>>
 
-If(e)     == Evaluable(e, defs) /\ Open(Eval(e, defs), [k |-> "if", e |-> e])
+If(e)     == Evaluable(e, defs) /\ Open(Eval(e, defs), [k |-> "if", e |-> e, viaRef |-> UsesRef(e, defs)])
 Ifdef(n)  == Open(defs[n] # Undef, [k |-> "ifdef", n |-> n])
 Ifndef(n) == Open(defs[n] = Undef, [k |-> "ifndef", n |-> n])
 
@@ -132,7 +146,7 @@ Elif(e) ==
              /\ stack' = [stack EXCEPT ![d] = [s |-> 0, e |-> 0]]
              /\ group' = [g0 EXCEPT ![Len(g0)] = [depth |-> d, taken |-> TRUE]]
         ELSE /\ stack' = stack /\ group' = g0 /\ skips' = skips
-  /\ Emit([k |-> "elif", e |-> e])
+  /\ Emit([k |-> "elif", e |-> e, viaRef |-> UsesRef(e, defs)])
   /\ UNCHANGED <<defs, idefs, effects>>
 
 (* ---- #else ------------------------------------------------------------ *)
@@ -184,7 +198,6 @@ UndefLine(n) ==
 \* the text a use of macro n expands to: a value, or a macro name left in place.
 \* A body "ref" is the name of the other macro; expansion rescans the result (C 6.10.3.4)
 \* and a macro is not re-expanded inside its own expansion.
-OtherName(n) == CHOOSE o \in Names : o # n
 Expansion(n) ==
   IF defs[n] \in {Undef, "fn"} THEN [t |-> "name", x |-> n]      \* bare name of a function-like macro stays
   ELSE IF defs[n] # "ref" THEN [t |-> "val", x |-> defs[n]]
